@@ -301,6 +301,30 @@ func recC09(c *ctx) {
 				verify()
 			}
 		}
+		// reuse after Reset: valid entries, Reset, then malformed entries in the slots the valid ones occupied
+		if h%4 == 0 {
+			bv.Reset()
+			emit(vt.Ev{"op": "reset"})
+			via := r.Intn(3)
+			for i := 0; i < 3; i++ {
+				add(mk(0), via)
+			}
+			batchonly()
+			bv.Reset()
+			emit(vt.Ev{"op": "reset"})
+			for _, cl := range []int{6, 0, 9} {
+				add(mk(cl), via)
+			}
+			batchonly()
+			verify()
+			bv.Reset()
+			emit(vt.Ev{"op": "reset"})
+			for _, cl := range []int{5, 4, 0} {
+				add(mk(cl), r.Intn(3))
+			}
+			batchonly()
+			verify()
+		}
 		// malformed entries through the NON-expanding addition path (forced, so that it does not take 94 entries to get
 		// there): every kind of malformed entry among valid ones
 		if h%4 == 2 {
